@@ -250,7 +250,7 @@ func (al *AllowList) Allow(addr netip.Addr) bool {
 		return true
 	}
 
-	result, _ := al.cidrTree.Lookup(addr)
+	result, _ := al.cidrTree.Lookup(addr.Unmap())
 	return result
 }
 
@@ -306,7 +306,7 @@ func (al *RemoteAllowList) AllowAll(vpnAddrs []netip.Addr, udpAddr netip.Addr) b
 
 func (al *RemoteAllowList) getInsideAllowList(vpnAddr netip.Addr) *AllowList {
 	if al.insideAllowLists != nil {
-		inside, ok := al.insideAllowLists.Lookup(vpnAddr)
+		inside, ok := al.insideAllowLists.Lookup(vpnAddr.Unmap())
 		if ok {
 			return inside
 		}
